@@ -37,6 +37,9 @@ class Run:
             else:
                 self.spaces.append(m.new_space("S%d" % i))
         m.LOG = lambda cid, key: self.log.append([cid, [None if v is None else int(v) for v in key]])
+        if world.get("shared_exc"):
+            m.SHX_key = KeyError("shared")
+            m.SHX_zero = ZeroDivisionError("shared")
         for r in world["refs"]:
             owner = m if r["space"] is None else self.spaces[r["space"]]
             setattr(owner, "r%d" % r["rid"], r["val"])
